@@ -196,6 +196,13 @@ pub fn build(root: &Path, fresh: bool, setup: &[Value]) -> Result<(), String> {
                     t.extend_from_slice(&to[5..]);
                     to = t;
                 }
+                // "if_file": an edit that only applies when an earlier invocation really left a regular file there
+                if op.get("if_file").and_then(|v| v.as_bool()).unwrap_or(false) {
+                    match std::fs::symlink_metadata(&p) {
+                        Ok(m) if m.file_type().is_file() => {}
+                        _ => continue,
+                    }
+                }
                 let _ = std::fs::remove_file(&p);
                 ioerr("symlink", &p, std::os::unix::fs::symlink(OsString::from_vec(to), &p))?;
                 apply_common(&p, op, true)?;
